@@ -18,6 +18,7 @@ def run(chk, tier):
         O.vec_traversals(chk, F, 'R17.2', cfg)
         O.tuple_slots(chk, F, 'R17.3', cfg)
         O.leaves(chk, F, 'R17.4', cfg)
+        O.conversion_flavour(chk, F, 'R17.5', cfg)
         # R17.3 slot separation by distinct type parameters
         n = 0
         for im in F.impls:
